@@ -494,3 +494,26 @@ func verifCanary(label string, cond bool) {}
 //@   props C23
 //@   assumed
 //@   assigns nothing
+
+// ---------------------------------------------------------------------------
+// C18 at the client: the request/response hand-off of Client.Send down to the secure channel, verified
+// (variant contracts: the C21 contracts of the same functions above are the assumed ones, because they
+// also promise a well-formed argument, which is the decoder's business). A nil error comes only from
+// the caller's own handler having run once and returned nil.
+// ---------------------------------------------------------------------------
+//@ func (*Client).sendWithTimeout@handoff
+//@   props C18
+//@   frame_only
+//@   requires c != nil
+//@   assigns *
+//@   calls h
+//@   ensures [C18:handler-ran] h != nil && result == nil ==> ran_h && res_h == nil
+
+//@ func (*Client).Send@handoff
+//@   props C18
+//@   frame_only
+//@   use (*Client).sendWithTimeout@handoff
+//@   requires c != nil
+//@   assigns *
+//@   calls h
+//@   ensures [C18:handler-ran] h != nil && result == nil ==> ran_h && res_h == nil
